@@ -145,6 +145,9 @@ func straceFamily(funcs []fnRec, tuples []tuple) []*core.Family {
 			return core.Outcome{Skipped: true}
 		}
 		sent.init() // scratch root exists
+		if os.Getenv(funcFileEnv) == "" {
+			publishFuncs(true) // manual -case run: spare the sub-process its own discovery
+		}
 		trace := filepath.Join(scratchRoot, fmt.Sprintf("trace-%d-%d.txt", os.Getpid(), shard))
 		defer os.Remove(trace)
 		exe, _ := os.Executable()
@@ -210,7 +213,7 @@ func straceFamily(funcs []fnRec, tuples []tuple) []*core.Family {
 		total := straceTotal(len(funcs))
 		want := (total - shard + straceShards - 1) / straceShards
 		out := core.Outcome{Viols: viols, NonTrivial: true, States: regions, Trans: lines,
-			Sig: core.Hash64(fmt.Sprintf("%d/%d", shard, len(viols)))}
+			Sig: core.Hash64(fmt.Sprintf("violations=%d", len(viols)))}
 		if regions != want {
 			out.Viols = append(out.Viols, &core.Violation{
 				Key:    "strace harness: traced sub-process did not complete its regions",
